@@ -26,6 +26,10 @@ TYPES = {
     "bool": ("bool",),
     "list[int]": ("list", ("int",)),
     "dict[str, int]": ("dict", ("str",), ("int",)),
+    # types that differ only in the ORDER of their parts
+    "dict[int, str]": ("dict", ("int",), ("str",)),
+    "list[dict[str, int]]": ("list", ("dict", ("str",), ("int",))),
+    "list[dict[int, str]]": ("list", ("dict", ("int",), ("str",))),
 }
 STYLES = ["numpydoc", "google", "rest"]
 
@@ -35,6 +39,8 @@ def pick_pair(rng, equal: bool):
     if equal:
         return a, a
     b = rng.choice([t for t in TYPES if t != a])
+    if rng.random() < 0.15:
+        a, b = rng.choice([("dict[str, int]", "dict[int, str]"), ("dict[int, str]", "dict[str, int]"), ("list[dict[str, int]]", "list[dict[int, str]]")])
     return a, b
 
 
